@@ -454,6 +454,28 @@ def metadataParams (clientStreaming : Bool) (inputType : List Char) (flattened :
   (if clientStreaming then [⟨"requests".toList, "Iterator[".toList ++ inputType ++ "]".toList⟩]
    else ⟨"request".toList, inputType⟩ :: flattened) ++ tailParams
 
+/-- `Field.name` / one segment of a `Method.flattened_fields` key: a reserved word carries the suffix `_` -/
+def suffixed (reserved : List Char → Bool) (seg : List Char) : List Char := if reserved seg then seg ++ ['_'] else seg
+
+def joinDots : List (List Char) → List Char
+  | [] => []
+  | [a] => a
+  | a :: b :: rest => a ++ '.' :: joinDots (b :: rest)
+
+/-- the KEY of `Method.flattened_fields` for one entry of `google.api.method_signature` (`"book.name"` as segments):
+    the attribute path on the request -/
+def flattenedKey (reserved : List Char → Bool) (path : List (List Char)) : List Char :=
+  joinDots (path.map (suffixed reserved))
+
+/-- the `name` of the VALUE of that entry — the leaf field `input.get_field(*path)` — which is what the client method
+    calls its keyword parameter and what `_fill_sample_metadata` writes (`field.name`, not the key) -/
+def flattenedName (reserved : List Char → Bool) (path : List (List Char)) : List Char :=
+  suffixed reserved (path.getLast?.getD [])
+
+/-- `method.flattened_fields.values()` as parameters, from the signature's (path, sphinx type of the leaf) entries -/
+def flattenedParams (reserved : List Char → Bool) (sig : List (List (List Char) × List Char)) : List Param :=
+  sig.map fun (p, t) => ⟨flattenedName reserved p, t⟩
+
 /-! ### 8. `result_type` of the metadata entry (`_fill_sample_metadata`) -/
 
 /-- `if not method.void: result_type = <client output>.ident.sphinx; if method.server_streaming: result_type =
